@@ -50,6 +50,16 @@ fn main() {
                 emit(&mut out, synchist::gen_seq(seed, id, maxlen));
             }
         }
+        "synchist-sched" => {
+            for id in first..first + count {
+                emit(&mut out, synchist::gen_sched(seed, id, maxlen));
+            }
+        }
+        "synchist-fault" => {
+            for id in first..first + count {
+                emit(&mut out, synchist::gen_fault(seed, id, maxlen));
+            }
+        }
         "synchist-exec" => {
             let p = arg(&args, "--script").expect("--script");
             let s: Value = serde_json::from_str(&std::fs::read_to_string(p).unwrap()).unwrap();
